@@ -322,6 +322,10 @@ class Scenario:
                 oc, nu = "interrupted", 0
             except BaseException as e:  # noqa
                 oc, nu = "exc:" + exc_kind(e), 0
+                import os, traceback
+                if os.environ.get("VERIF_DEBUG_TB"):       # development aid: where did the call's exception come from
+                    with open(os.environ["VERIF_DEBUG_TB"], "a") as fh:
+                        traceback.print_exc(file=fh)
             in_call[0] = False
             rec.ev("ret", op, oc, str(RE.state), nu, int(RE.resumable), "D" if RE.deferred_pause_requested else "")
             outcomes.append((op, oc, str(RE.state)))
